@@ -286,7 +286,8 @@ CHECKS["C09"] = dict(
     pkg="c09", level="exploration",
     props=[dict(name="TestPropHTTPAuth", quick=240, thorough=16 * 1500, shards_quick=12, shards_thorough=16, timeout_quick=900, timeout_thorough=7200),
            dict(name="TestPropLogin", quick=180, thorough=16 * 1200, shards_quick=12, shards_thorough=16, timeout_quick=900, timeout_thorough=7200),
-           dict(name="TestPropBusToken", quick=48, thorough=16 * 200, shards_quick=4, shards_thorough=16)],
+           dict(name="TestPropBusToken", quick=48, thorough=16 * 200, shards_quick=4, shards_thorough=16),
+           dict(name="TestEnumTokenExpiresWhileInUse", rapid=False, quick=1, thorough=1)],
     rule="HTTP: api.NewAppHandler (JwtAuth = the store's authorizer, AuthToken set) driven in-process with httptest; per case "
          "5-40 requests: method (standard + junk) x path grammar over /v1/nodes[/<id>[/points|samples|parents|not|junk]] "
          "with path tricks and non-node routes x JSON or junk bodies x 19 credential classes (none, the auth token, mangled "
@@ -299,7 +300,7 @@ CHECKS["C09"] = dict(
          "issue a token exactly for matching credentials of a user connected to the root through live edges (model "
          "reachability), wrong password / e-mail never; GET /v1/nodes with the issued token lists only nodes inside the live "
          "subtrees of the parents of the user's live placements, and those parents. Bus: a TCP instance with a drawn token "
-         "refuses connections without / with another token and accepts the right one. Non-trivial: HTTP = a structurally "
+         "refuses connections without / with another token and accepts the right one. A short-lived token is used while valid and must be refused after it expired. Non-trivial: HTTP = a structurally "
          "valid but unauthorised JWT on a mutating method; login = a user with >= 2 placements of which >= 1 is deleted.",
     assumptions=["forms the statement does not decide (lowercase scheme, surplus blanks, a changed last base64 character) are observed, not judged",
                  "the auth token is non-empty (the property is conditional on an instance configured with one)"],
